@@ -1,6 +1,7 @@
 package main
 
 import (
+	"go/token"
 	"go/types"
 	"sort"
 	"strings"
@@ -12,14 +13,15 @@ func init() { registry["C11"] = propC11 }
 
 func propC11() *Property {
 	return &Property{
-		ID: "C11",
-		Explanation: "Structural clauses of the feed property only. Decided: (R1) the feed simply ends — no pointer that may be nil is ever converted into a pub.Container or pub.Tangible interface anywhere in the module (a typed nil passes every `!= nil` test of the UI and crashes on the next Harvest); (R2) splicer.NewSplicer's type switch covers every dynamic type pub.FetchUserInput can return, so its panic is unreachable; (R3) the parallel replenish/NewSplicer fan-out is race-free (decided by C08.R5); (R4) Splicer.Harvest never writes through its receiver — it works on a clone — which is necessary for the same feed position to give the same answer twice; (R5) because clone() copies the per-source buffers shallowly, a feed value and all its clones / continuations share the arrays behind `elements`: those arrays are only re-sliced or re-allocated by append, never written in place (no indexed store, no copy into them other than clone's own self-copy). NOT decided: that the output is the newest-first merge, exactly-once delivery, tie-breaking and idempotence as values (they quantify over timestamps and slices; no static argument in reach decides them).",
+		ID:          "C11",
+		Explanation: "Structural clauses of the feed property only. Decided: (R1) the feed simply ends — no pointer that may be nil is ever converted into a pub.Container or pub.Tangible interface anywhere in the module (a typed nil passes every `!= nil` test of the UI and crashes on the next Harvest); (R2) splicer.NewSplicer's type switch covers every dynamic type pub.FetchUserInput can return, so its panic is unreachable; (R3) the parallel replenish/NewSplicer fan-out is race-free (decided by C08.R5); (R4) Splicer.Harvest never writes through its receiver — it works on a clone — which is necessary for the same feed position to give the same answer twice; (R5) because clone() copies the per-source buffers shallowly, a feed value and all its clones / continuations share the arrays behind `elements`: those arrays are only re-sliced or re-allocated by append, never written in place (no indexed store, no copy into them other than clone's own self-copy); (R6) replenish visits every source on every call — no return skips the fan-out loop — and refills a source exactly when its own buffer is shorter than the requested depth and it still has a page, asking that page for exactly the missing number of items from its own base point (a necessary condition for choosing among the true heads of all sources). NOT decided: that the output is the newest-first merge, exactly-once delivery, tie-breaking and idempotence as values (they quantify over timestamps and slices; no static argument in reach decides them).",
 		Assumptions: []string{"VTA call graph / MakeInterface sites over-approximate the dynamic types of interface values"},
 		Rules: []Rule{
 			{ID: "C11.R1", Title: "no typed-nil pointer is converted to Container / Tangible", Floor: 30, Run: c11R1},
 			{ID: "C11.R2", Title: "NewSplicer's type switch covers every type FetchUserInput returns", Floor: 3, Run: c11R2},
 			{ID: "C11.R4", Title: "Harvest works on a clone: the receiver is never written", Floor: 1, Run: c11R4},
 			{ID: "C11.R5", Title: "buffered items are shared with clones: never written in place", Floor: 1, Run: c11R5},
+			{ID: "C11.R6", Title: "every source is replenished to the requested depth", Floor: 1, Run: c11R6},
 		},
 	}
 }
@@ -281,4 +283,79 @@ func indexSuffix(p string) string {
 		return ""
 	}
 	return p[i:]
+}
+
+// c11R6: replenish considers every source, each by its own state.
+func c11R6(c *Ctx) {
+	P := c.P
+	rp := P.Method("servitor/splicer", "Splicer", "replenish")
+	name := FuncName(rp)
+	// the fan-out: go statements inside a loop; no return is reachable without passing the loop's header
+	var goI *ssa.Go
+	eachInstr(rp, func(_ *ssa.BasicBlock, _ int, in ssa.Instruction) {
+		if g, ok := in.(*ssa.Go); ok {
+			goI = g
+		}
+	})
+	if goI == nil || !inCycle(goI.Block()) {
+		c.bad(name+"/fan-out", P.Pos(rp.Pos()), name, "replenish no longer refills the sources in a loop over all of them")
+		return
+	}
+	var header *ssa.BasicBlock
+	for b := goI.Block(); b != nil; b = b.Idom() {
+		if blockReaches(goI.Block(), b) && b.Dominates(goI.Block()) {
+			header = b
+		}
+	}
+	okAll := header != nil
+	for _, b := range rp.Blocks {
+		if _, isRet := b.Instrs[len(b.Instrs)-1].(*ssa.Return); isRet && header != nil && !header.Dominates(b) {
+			okAll = false
+		}
+	}
+	c.check(okAll, name+"/visits-every-source", P.Pos(rp.Pos()), name, "every call reaches the loop over all sources (no early return)", "replenish can return without visiting the sources: a decision taken on aggregated state skips sources that individually need refilling, and older items of other sources are delivered first")
+	// the loop ranges over the whole receiver
+	amount := rp.Params[1]
+	for _, cl := range Closures(rp) {
+		cname := FuncName(cl)
+		eachInstr(cl, func(b *ssa.BasicBlock, _ int, in ssa.Instruction) {
+			call, ok := in.(*ssa.Call)
+			if !ok || !call.Call.IsInvoke() || call.Call.Method.Name() != "Harvest" {
+				return
+			}
+			// guards: len(source.elements) < amount, source.page != nil — and nothing else
+			facts := factsOf(cl).At(b)
+			okLen, okPage, extra := false, false, ""
+			for _, f := range facts {
+				cmp, isCmp := f.Cmp()
+				if !isCmp {
+					extra = "a condition that is not a comparison"
+					continue
+				}
+				px, py := path(cmp.X), path(cmp.Y)
+				switch {
+				case cmp.Op == token.LSS && strings.HasPrefix(px, "builtin:len(") && strings.Contains(px, ".&elements.*") && unwrapLoad(cmp.Y) == ssa.Value(amount):
+					okLen = true
+				case cmp.Op == token.NEQ && isNilConst(cmp.Y) && strings.HasSuffix(px, ".&page.*"):
+					okPage = true
+				default:
+					extra = "the refill also depends on " + shortSym(px) + " " + cmp.Op.String() + " " + shortSym(py)
+				}
+			}
+			c.check(okLen && okPage && extra == "", cname+"/refill-guard", P.InstrPos(in), cname,
+				"a source is refilled exactly when len(its buffer) < amount and it still has a page", "the refill of a source is not decided by that source's own buffer length and page alone: "+extra)
+			// quantity = amount - len(buffer), from its own base point
+			q := lin(call.Call.Args[0])
+			okQ := q.c == 0 && len(q.coef) == 2
+			for sym, k := range q.coef {
+				if !((k == 1 && strings.Contains(sym, "amount")) || (k == -1 && strings.HasPrefix(sym, "len(") && strings.Contains(sym, ".&elements.*"))) {
+					okQ = false
+				}
+			}
+			okBase := strings.HasSuffix(path(call.Call.Args[1]), ".&basepoint.*")
+			okRecv := strings.HasSuffix(path(call.Call.Value), ".&page.*")
+			c.check(okQ && okBase && okRecv, cname+"/refill-request", P.InstrPos(in), cname,
+				"asks the source's own page for amount-len(buffer) items from its own base point", "the refill request is not amount-len(buffer) items from the source's own page and base point: "+q.String())
+		})
+	}
 }
